@@ -18,6 +18,10 @@ Fault configuration (byzantine archive, kept apart): an artifact is truncated,
 bit-flipped or deleted between invocations.  The invocation may then fail with
 a build error, but if it succeeds oracle 1 still holds, and after removing the
 damaged file the next invocation succeeds and holds too.
+Live-build-id scenario (`_run_live`): a git source with a branch, live Build-Id
+prediction through `git ls-remote`, and a world hook that moves the upstream
+branch right after the prediction; the invocation must restart the affected
+packages and end with the result of the commit it really checked out.
 """
 
 import os
@@ -33,7 +37,7 @@ RULE = ("case = generated project (fingerprinted and non-relocatable recipes, im
 COMPONENTS = {"real": ["bob dev with --upload/--download", "builder._getBuildId/_downloadPackage/_getFingerprint", "intermediate.getDigestCoro",
                        "archive.LocalArchive up/download incl. extraction and audit verification"],
               "stub": ["event loop (SimLoop), process pool inline", "host identity = content of a file read by fingerprint scripts"],
-              "not_exercised": ["live-build-ids (need git/url sources)", "concurrent uploader/downloader (C09)", "http/azure back ends"]}
+              "not_exercised": ["url/svn live-build-ids (git only)", "concurrent uploader/downloader (C09)", "http/azure back ends"]}
 ASSUMPTIONS = ["a fingerprint script reports everything host dependent that the build consumes",
                "scripts are deterministic"]
 SHRINK = ["ops"]
